@@ -64,7 +64,7 @@ Proof. intros Hw Hd. apply handle_error_writes; auto. intros a Ha. left. exact H
    the declared size (the failing exit clears the object, which then lies inside the declaration).  Excluded: dmax elements fit
    the object but len elements do not -- there the failing exit clears the whole object, beyond dest[dmax): refuted below *)
 Definition conv_bos_ok (w dmax len destbos : Z) : Prop :=
-  destbos = BOS_UNKNOWN \/ (dmax * w <= destbos /\ len * w <= destbos) \/ 1 <= destbos <= dmax * w.
+  destbos = BOS_UNKNOWN \/ (dmax * w <= destbos /\ len * w <= destbos) \/ w <= destbos <= dmax * w.
 
 Theorem mbstowcs_s_writes c utf8 retvalp dest dmax src len destbos : 0 < wchar_w c -> 0 <= dmax -> 0 <= len ->
   conv_bos_ok (wchar_w c) dmax len destbos ->
@@ -110,9 +110,10 @@ Proof.
     + destruct ((rmax_wstr c <? dmax) || (rmax_wstr c <? len)); [exact I|specialize (Body H1); rewrite Ed' in Body; exact Body].
     + apply Z.eqb_neq in Eb. destruct Hb as [Hb|Hb]; [contradiction|].
       destruct ((destbos <? dmax * w) || (destbos <? len * w)) eqn:Eo; [|specialize (Body H1); rewrite Ed' in Body; exact Body].
-      assert (Hle : 1 <= destbos <= dmax * w).
+      assert (Hle : w <= destbos <= dmax * w).
       { destruct Hb as [[Hb1 Hb2]|Hb]; [|exact Hb]. apply orb_prop in Eo. destruct Eo as [Eo|Eo]; apply Z.ltb_lt in Eo; lia. }
-      (* the caller's object is smaller than declared: the clear runs over the object, which is what a truthful destbos allows *)
+      assert (Hq : 1 <= destbos / w) by (apply Z.div_le_lower_bound; lia).
+      assert (Hq2 : destbos / w * w <= destbos) by (rewrite Z.mul_comm; apply Z.mul_div_le; lia).
       destruct ((rmax_wstr c <? dmax) || (rmax_wstr c <? len)); (apply writes_in_bind; [|intros; exact I]);
         apply handle_error_writes; try lia; intros a Ha; left; revert Ha; apply ext_sub; lia.
 Qed.
